@@ -44,5 +44,11 @@ func writeHeader(headerPath string, header Header) error {
 	if err != nil {
 		return err
 	}
-	return os.WriteFile(headerPath, data, 0o666)
+	// Write to a temporary file and rename it over the header, so that the
+	// header is never seen truncated or partly written.
+	tmpPath := headerPath + ".tmp"
+	if err = os.WriteFile(tmpPath, data, 0o666); err != nil {
+		return err
+	}
+	return os.Rename(tmpPath, headerPath)
 }
